@@ -118,6 +118,12 @@ func checkExpect(c *expectCase) error {
 		}
 		return nil
 	}
+	if c.Want.T == "builds" {
+		if berr != nil {
+			return fmt.Errorf("BuildExpr(%q) rejected a syntactically valid expression: %v", c.Expr, firstLine(berr.Error()))
+		}
+		return nil
+	}
 	if berr != nil {
 		if c.Want.T == "error" {
 			return nil
